@@ -235,7 +235,8 @@ fn gen_token_msg(rng: &mut Rng, token: usize) -> Item {
             if t == "client_hello" {
                 m.set("sid", crate::item::Val::None);
             } else {
-                let n = rng.urange(1, 32);
+                // presence is what matters: a constructed value may even carry an empty id
+                let n = if rng.chance(1, 8) { 0 } else { rng.urange(1, 32) };
                 m.set("sid", crate::item::Val::Bytes(rng.bytes(n)));
             }
             m
